@@ -15,6 +15,8 @@ package nsqd
 //@ spec stepP(f int, p int, sz int, max int) int := p + 4 + sz > max ? 0 : p + 4 + sz
 //@
 //@ func (d *DiskQueue) writeOne(data []byte) error
+//@   // bytes.Buffer.Write never returns an error (library contract): the branch behind it is dead code
+//@   unreachable_return "return err #4"
 //@   property C09
 //@   nosafety "os.File handles returned by the assumed os contracts; only the position arithmetic and framing are specified"
 //@   requires d.writeFile != nil ==> d.writeFile.offset == d.writePos
